@@ -1,0 +1,66 @@
+//! Verification hooks, compiled only with `--cfg lasso_verif`.
+//!
+//! `point(..)` is called immediately before each shared-memory action of the concurrent interner
+//! and its arena. With no callback installed it is a single relaxed load; a test harness can install a
+//! callback to serialise threads at these points.
+
+use core::sync::atomic::{AtomicUsize, Ordering};
+
+/// A schedule point: the shared-memory action the calling thread is about to perform
+#[derive(Debug, Copy, Clone, PartialEq, Eq, Hash)]
+pub enum Point {
+    /// `try_get_or_intern`: about to take the shard's write lock
+    BeforeShardLock,
+    /// `try_get_or_intern`: about to call `LockfreeArena::store_str`
+    BeforeStore,
+    /// about to `fetch_add` the key counter
+    BeforeKeyFetch,
+    /// about to insert into the key -> string map
+    BeforeStringsInsert,
+    /// about to insert into the string -> key map (and then release the shard lock)
+    BeforeMapInsert,
+    /// `try_get_or_intern_static`: about to call `map.entry(..)` (takes the shard's write lock)
+    BeforeEntry,
+    /// arena: about to load the next pointer of the bucket list
+    ArenaNextBucket,
+    /// arena: about to load a bucket's length
+    ReserveLoadLen,
+    /// arena: about to compare-exchange a bucket's length
+    ReserveCas,
+    /// arena: about to copy the string into its reserved range
+    BeforeCopy,
+    /// arena: about to load the bucket capacity
+    GrowLoadCapacity,
+    /// arena: about to load the memory usage (remaining-budget computation)
+    GrowLoadUsage,
+    /// arena: about to load the memory limit (remaining-budget computation)
+    GrowLoadMax,
+    /// arena: `allocate_memory`, about to load the memory limit
+    AllocLoadMax,
+    /// arena: `allocate_memory`, about to check-and-add the memory usage
+    AllocUpdate,
+    /// arena: about to store the doubled bucket capacity
+    StoreCapacity,
+    /// arena: `push_front`, about to load the list head
+    PushLoadHead,
+    /// arena: `push_front`, about to compare-exchange the list head
+    PushCas,
+}
+
+static HOOK: AtomicUsize = AtomicUsize::new(0);
+
+/// Install (or remove) the callback invoked at every schedule point
+pub fn set_hook(hook: Option<fn(Point)>) {
+    HOOK.store(hook.map(|f| f as usize).unwrap_or(0), Ordering::SeqCst);
+}
+
+/// Called by the library immediately before each shared-memory action
+#[inline]
+pub fn point(point: Point) {
+    let hook = HOOK.load(Ordering::Relaxed);
+    if hook != 0 {
+        // Safety: the only non-zero values ever stored are `fn(Point)` pointers
+        let hook: fn(Point) = unsafe { core::mem::transmute::<usize, fn(Point)>(hook) };
+        hook(point);
+    }
+}
